@@ -70,7 +70,8 @@ def alias_seq(toks):
     out = []
     for i, clause in top_clauses(toks):
         t = toks[i]
-        if t["t"] == "id" and t["v"] in ALIASES and not (i + 1 < len(toks) and toks[i + 1]["v"] == "."):
+        if t["t"] == "id" and t["v"] in ALIASES and not (i + 1 < len(toks) and toks[i + 1]["v"] == ".") \
+                and not (i > 0 and toks[i - 1]["t"] == "punct" and toks[i - 1]["v"] == "."):      # ("t"."ala" is a column called ala, not an alias)
             out.append([clause, t["v"]])
     return out
 
